@@ -99,17 +99,18 @@ func sourceUntouched(e *env, stage string) *finding {
 	return nil
 }
 
-// historyAlignment: a layer that survives unmodified (same digest as a source or
-// base layer) must still be described by the history entry it had: the
-// created_by of the non-empty history entry at its position equals the one the
-// generator gave that layer (every generated created_by is unique).
+// historyAlignment: a layer whose uncompressed content is that of a source or base
+// layer (same diff_id: untouched or merely recompressed) must still be described
+// by the history entry it had: the created_by of the non-empty history entry at
+// its position is one the generator gave a layer with that content (every
+// generated created_by is unique).
 func historyAlignment(e *env, root string) *finding {
 	if hasKind(e.c, func(k string) bool { return k == "buildarg-rm" }) {
 		return nil // rewrites created_by texts
 	}
-	// digest -> created_by, from everything that was materialised
-	by := map[string]string{}
-	conflict := map[string]bool{}
+	// diff_id -> set of created_by, from everything that was materialised (layers with
+	// the same uncompressed content are interchangeable)
+	by := map[string]map[string]bool{}
 	add := func(layers []LayerSpec, hist []HistSpec) {
 		j := 0
 		for _, h := range hist {
@@ -119,11 +120,17 @@ func historyAlignment(e *env, root string) *finding {
 			if j >= len(layers) {
 				return
 			}
-			d := sha256Dig(compress(layers[j].Comp, tarBytes(layers[j].Files)))
-			if prev, ok := by[d]; ok && prev != h.CreatedBy {
-				conflict[d] = true
+			tokened := false
+			for _, f := range layers[j].Files {
+				tokened = tokened || f.Token != ""
 			}
-			by[d] = h.CreatedBy
+			if tokened { // only layers whose content no other layer can be rewritten into
+				d := sha256Dig(tarBytes(layers[j].Files))
+				if by[d] == nil {
+					by[d] = map[string]bool{}
+				}
+				by[d][h.CreatedBy] = true
+			}
 			j++
 		}
 	}
@@ -137,6 +144,12 @@ func historyAlignment(e *env, root string) *finding {
 	if e.c.Base != nil {
 		add(e.c.Base.OldLayers, e.c.Base.OldHist)
 		add(e.c.Base.NewLayers, e.c.Base.NewHist)
+	}
+	// an added layer may happen to have the content of a source layer: not judged
+	for _, o := range e.c.Program {
+		if o.Kind == "layer-add" && o.Layer != nil {
+			delete(by, sha256Dig(tarBytes(o.Layer.Files)))
+		}
 	}
 	v := e.tgt.view()
 	var walk func(d string, depth int) *finding
@@ -167,6 +180,9 @@ func historyAlignment(e *env, root string) *finding {
 			return nil
 		}
 		var cfg struct {
+			RootFS struct {
+				DiffIDs []string `json:"diff_ids"`
+			} `json:"rootfs"`
 			History []struct {
 				CreatedBy  string `json:"created_by"`
 				EmptyLayer bool   `json:"empty_layer"`
@@ -181,21 +197,30 @@ func historyAlignment(e *env, root string) *finding {
 				ne = append(ne, h.CreatedBy)
 			}
 		}
-		if len(ne) != len(m.Layers) {
-			return nil // reported by the count clause
+		if len(ne) != len(m.Layers) || len(cfg.RootFS.DiffIDs) != len(m.Layers) {
+			return nil // reported by the count clauses
 		}
 		for j, l := range m.Layers {
-			want, known := by[l.Digest]
-			if !known || conflict[l.Digest] {
-				continue
+			want, known := by[cfg.RootFS.DiffIDs[j]]
+			if !known {
+				continue // a rewritten or added layer
 			}
-			if ne[j] != want {
-				return fnd("history-misaligned", "manifest %s: layer %d (%s) is an unmodified source layer created by %q, but the history entry at its position says %q", d, j, l.Digest, want, ne[j])
+			if !want[ne[j]] {
+				return fnd("history-misaligned", "manifest %s: layer %d (%s, diff_id %s) has the content of a source layer created by %v, but the history entry at its position says %q", d, j, l.Digest, cfg.RootFS.DiffIDs[j], keysOf(want), ne[j])
 			}
 		}
 		return nil
 	}
 	return walk(root, 0)
+}
+
+func keysOf(m map[string]bool) []string {
+	out := []string{}
+	for k := range m {
+		out = append(out, k)
+	}
+	sort.Strings(out)
+	return out
 }
 
 // evaluate materialises the case, applies the program and runs every oracle clause.
@@ -350,11 +375,27 @@ func onlyReferrersWritten(pre, post snapshot) bool {
 		var probe struct {
 			SchemaVersion *int            `json:"schemaVersion"`
 			Subject       json.RawMessage `json:"subject"`
+			Manifests     *[]gDesc        `json:"manifests"`
 		}
 		if len(body) == 0 || body[0] != '{' || json.Unmarshal(body, &probe) != nil || probe.SchemaVersion == nil {
 			continue // a blob
 		}
-		if len(probe.Subject) == 0 {
+		if len(probe.Subject) > 0 {
+			continue // a referrer
+		}
+		// an index that lists only referrers is a (possibly superseded) fall-back index
+		isRefList := probe.Manifests != nil
+		if isRefList {
+			for _, en := range *probe.Manifests {
+				var sub struct {
+					Subject json.RawMessage `json:"subject"`
+				}
+				if eb, ok := post.Content[en.Digest]; !ok || json.Unmarshal(eb, &sub) != nil || len(sub.Subject) == 0 {
+					isRefList = false
+				}
+			}
+		}
+		if !isRefList {
 			return false
 		}
 	}
@@ -423,6 +464,22 @@ func hasKind(c Case, pred func(string) bool) bool {
 func recognise(c Case, b *built, f *finding) string {
 	clause := strings.TrimPrefix(f.Clause, "after-close-")
 	isFileStep := func(k string) bool { return fileStepKinds[k] }
+	// rebase of >=2 platform images onto a base that is a single image (one cached manifest object):
+	// the step builds each image's layer list with append(layersNew, own...) on the SAME slice; when
+	// its capacity exceeds its length (3, 5, 6, 7 ... layers decoded from JSON) the images overwrite each
+	// other's first own layer (or a later delete zeroes it)
+	if c.Base != nil && !c.Base.AsIndex && !c.Base.SameNew && hasKind(c, func(k string) bool { return k == "rebase" || k == "rebase-refs" }) {
+		n, rebased := len(c.Base.NewLayers), 0
+		for _, im := range c.Images {
+			if im.UseBase {
+				rebased++
+			}
+		}
+		layerClause := strings.HasPrefix(clause, "layer-") || strings.HasPrefix(clause, "diffid") || strings.HasPrefix(clause, "history-")
+		if rebased >= 2 && n >= 3 && n&(n-1) != 0 && layerClause {
+			return "rebase-layer-slice-of-single-base-manifest-aliased-across-platforms"
+		}
+	}
 	switch clause {
 	case "index-entry-data-mismatch":
 		// the data field of an index entry holds an index body (the parent's), not the child manifest
